@@ -2,8 +2,8 @@
    M = Model/Isd.v (isd), Model/SigTimes.v (sig = the code's list, sig_fixed = the corrected transcription,
    isd_sequence).  All statements are for every document and every rational time. *)
 From Coq Require Import Sorting.Sorted.
-From TT Require Import Model.Doc Gen.StyleTables Model.Isd Model.SigTimes.
-From TT Require Import Proofs.C02.Stable Proofs.C02.Sig Proofs.C02.Complete Proofs.C02.BeforeFirst.
+From TT Require Import Model.Doc Gen.StyleTables Model.Isd Model.SigTimes Model.CloneTrigger Spec.RenderSpec Spec.DocWf.
+From TT Require Import Proofs.C02.Stable Proofs.C02.Sig Proofs.C02.Complete Proofs.C02.BeforeFirst Proofs.C02.Timeline Proofs.C14.Sequence.
 
 (* strictly increasing *)
 Theorem C02_sorted : forall fixed d l, sig_gen fixed d = Ok l -> StronglySorted Qlt l.
@@ -34,5 +34,35 @@ Theorem C02_sequence : forall d s, isd_sequence d = Ok s ->
   exists l, sig d = Ok l /\ map fst s = l /\ Forall (fun p => isd_cached d (fst p) = Ok (snd p)) s.
 Proof. exact sequence_spec. Qed.
 
+(* the snapshot at t is the snapshot at the greatest significant time not after t — for the code's own list, outside the
+   recorded finding *)
+Theorem C02_complete_partial : forall d l t f,
+  sig d = Ok l -> sig_misses d = false -> floor_sig l t = Some f -> Qle 0 f -> isd d t = isd d f.
+Proof. exact complete_partial. Qed.
+
+(* ... and each entry of the sequence (computed WITH the significant-times cache) renders like the snapshot computed
+   without it at that time: it is that snapshot minus regions that paint nothing (Spec/RenderSpec.v; proof shared with
+   C14; `clone_empties_doc` is the trigger of the recorded C14 finding ruby-base-emptied-by-region) *)
+Theorem C02_sequence_uncached_partial : forall d s,
+  doc_wf d = true -> clone_empties_doc d = false -> isd_sequence d = Ok s ->
+  exists l, sig d = Ok l /\ map fst s = l /\
+            Forall (fun p => isd_cached d (fst p) = Ok (snd p) /\
+                             forall rs, isd d (fst p) = Ok rs -> omits_only (fun r => paints r = false) (snd p) rs /\ render (snd p) = render rs) s.
+Proof. exact sequence_render. Qed.
+
+(* the sequence describes the whole timeline: for every t at or after the first entry, the entry at the greatest
+   significant time not after t renders like the snapshot at t *)
+Theorem C02_timeline_partial : forall d s t f rs,
+  doc_wf d = true -> clone_empties_doc d = false -> sig_misses d = false ->
+  isd_sequence d = Ok s -> floor_sig (map fst s) t = Some f -> Qle 0 f -> isd d t = Ok rs ->
+  exists i, In (f, i) s /\ render i = render rs.
+Proof. exact timeline. Qed.
+Example C02_timeline_hypotheses :
+  doc_wf ex_doc = true /\ clone_empties_doc ex_doc = false /\ sig_misses ex_doc = false /\
+  exists s, isd_sequence ex_doc = Ok s /\ map fst s = [0%Q; Qmake 2 1; Qmake 4 1] /\ floor_sig (map fst s) (Qmake 3 1) = Some (Qmake 2 1).
+Proof. exact timeline_example. Qed.
+
 Print Assumptions C02_sorted.  Print Assumptions C02_before_first.  Print Assumptions C02_stable_fixed.
 Print Assumptions C02_complete_fixed.  Print Assumptions C02_stable_partial.  Print Assumptions C02_sequence.
+Print Assumptions C02_complete_partial.  Print Assumptions C02_sequence_uncached_partial.  Print Assumptions C02_timeline_partial.
+Print Assumptions C02_timeline_hypotheses.
